@@ -206,6 +206,58 @@ class BodyView:
                 for g in self._bool_local_facts(d['p']['l'], next(iter(vals)), depth):
                     if g not in out:
                         out.append(g)
+            # (2) `x == Enum::V` through a derived PartialEq (a comparison of discriminants) on a value all of whose origins are unit variants built in this
+            #     body (`let order = if c { Sorted } else { Source }; .. if order == Sorted`): the edge says which construction site the path came through
+            if vals in ({True}, {False}):
+                for o in self.pv.origins_operand(t['discr']):
+                    o = strip_casts(o)
+                    if o[0] != 'call' or o[2]:
+                        continue
+                    ct = self.pv.call_term(o)
+                    cp = callee_path(ct) or ''
+                    m_ = re.search(r'::(eq|ne)$', cp)
+                    fb = self.w.bodies.get(resolved_id(ct))
+                    if not m_ or fb is None or len(ct['args']) != 2 or any(True for _ in fb.calls() if not re.search(r'discriminant_value$', callee_path(_[1]) or '')):
+                        continue
+                    sides = [[strip_casts(x) for x in self.pv.peel(self.pv.origins_operand(a))] for a in ct['args']]
+
+                    def vnames(side):
+                        out_ = []
+                        for x in side:
+                            if x[0] == 'agg' and not x[2] and self.pv.agg_rvalue(x).get('vname') and not self.pv.agg_rvalue(x).get('ops'):
+                                out_.append((self.pv.agg_rvalue(x)['vname'], x))
+                            elif x[0] == 'promoted':
+                                # `&Enum::V` as a promoted constant: read the variant from the promoted body
+                                owner, idx = (x[1] if isinstance(x[1], tuple) else (self.b.id, x[1]))
+                                pb = self.w.bodies.get('%s::promoted[%d]' % (owner, idx))
+                                if pb is None and getattr(self.b, 'original', None) is not None:
+                                    pb = self.w.bodies.get('%s::promoted[%d]' % (self.b.original.id, idx))
+                                vs_ = [st['rv'].get('vname') for blk in (pb.blocks if pb else []) for st in blk['stmts']
+                                       if st['s'] == 'assign' and st['rv'].get('r') == 'agg' and st['rv'].get('vname') and not st['rv'].get('ops')]
+                                if len(vs_) != 1:
+                                    return None
+                                out_.append((vs_[0], x))
+                            else:
+                                return None
+                        return out_
+                    va, vb = vnames(sides[0]), vnames(sides[1])
+                    if not va or not vb:
+                        continue
+                    const_side, var_side = (vb, va) if len({n for n, _ in vb}) == 1 and len({n for n, _ in va}) > 1 else ((va, vb) if len({n for n, _ in va}) == 1 and len({n for n, _ in vb}) > 1 else (None, None))
+                    if const_side is None:
+                        continue
+                    V = const_side[0][0]
+                    is_v = (m_.group(1) == 'eq') == (vals == {True})
+                    sel = [x for n, x in var_side if (n == V) == is_v and x[0] == 'agg']
+                    if not sel or len(sel) == len(var_side):
+                        continue
+                    common = None
+                    for x in sel:
+                        gs = {(a, frozenset(v_), s_) for a, v_, s_ in self.guards_ext(x[1][0], depth + 1)}
+                        common = gs if common is None else (common & gs)
+                    for a, v_, s_ in sorted(common or (), key=str):
+                        if (a, set(v_), s_) not in out:
+                            out.append((a, set(v_), s_))
             for o in self.pv.origins_operand(t['discr']):
                 o = strip_casts(o)
                 if o[0] != 'discr':
